@@ -88,6 +88,9 @@ def fetch_schema_locations(source: Union['XMLResource', XMLSourceType],
     if not locations:
         raise XMLSchemaValueError("provided arguments don't contain any schema location hint")
 
+    if base_url is None and allow == 'sandbox':
+        base_url = resource.base_url  # the sandbox is the one of the XML source
+
     namespace = resource.namespace
     for ns, location in sorted(locations, key=lambda x: x[0] != namespace):
         try:
